@@ -1057,7 +1057,7 @@ pub fn cases(tier: Tier) -> Vec<Case> {
             }
         }
     }
-    for n in [8usize, 9, 16, 17, 32, 33, 64, 65, 100] {
+    for n in [8usize, 9, 16, 17, 32, 33, 64, 65, 100, 256, 257] {
         for dup in [false, true] {
             let nd = if dup { n - 1 } else { n };
             for ng in [0, nd - 1, nd, nd + 1, n, 1] {
@@ -1173,7 +1173,7 @@ pub fn cases(tier: Tier) -> Vec<Case> {
 fn evidence_meta(ctx: &Ctx, ncases: usize) -> Meta {
     Meta::exploration(
         "constructors: Dual/Dual2::try_new and try_new_from on every name list of length 0-3 (duplicates allowed) x \
-         gradient length 0-4 x Hessian length 0-10, and on lists of 8 .. 100 names (with and without a repeated name) x gradient lengths {0, 1, n-1, n, n+1} x Hessian lengths {0, n, n^2-1, n^2, n^2+1, (n-1)^2, n(n+1)}; Ccy::try_new on every string of length 0-4 over {a,B,1,e-acute,euro, \
+         gradient length 0-4 x Hessian length 0-10, and on lists of 8 .. 257 names (with and without a repeated name) x gradient lengths {0, 1, n-1, n, n+1} x Hessian lengths {0, n, n^2-1, n^2, n^2+1, (n-1)^2, n(n+1)}; Ccy::try_new on every string of length 0-4 over {a,B,1,e-acute,euro, \
          space} (+ case-folding oddities), FXPair/FXRate::try_new on every pair with the strings of length <= 3; \
          FXRates::try_new on degenerate quote lists (empty, zero/negative/NaN/inf/subnormal/MAX rates, mixed Dual/Dual2 \
          quotes, duplicate and cyclic pairs, 13 currencies) x bases x orders; NamedCal::try_new on every token string of \
